@@ -16,8 +16,10 @@ RULE = ("a case is a namespace tree on disk (1-4 root directories, nesting depth
         "symbolic link, str / Path, permuted, duplicated) and the whole case under 4 values of PYTHONHASHSEED each with its own seeded "
         "shuffle of Path.rglob results; non-trivial = some call returns >= 2 types or is rejected because of the directory set; "
         "distinct = by hash of the canonical case")
-THEOREMS_NOTE = ("C10_sorted / C10_perm / C10_complete / C10_files fix the ordered output, C10_reject_dirs the accepted directory sets, "
-                 "C10_dir_args the independence from order and duplication of the directory arguments")
+THEOREMS_NOTE = ("C10_complete / C10_files / C10_files_api fix the returned sets (direct = requested, transitive = rest of the closure, disjoint, "
+                 "types equal to reading alone), C10_sorted / C10_sorted_strict the order, C10_perm the independence from enumeration order, "
+                 "C10_dir_args from order / duplication of directory arguments, C10_reject_dirs the accepted directory sets; "
+                 "C10_complete_refuted is the F5b witness")
 TRUSTED = ["Path.resolve, symbolic links, Path.rglob and the iteration order of Python sets are exercised through the implementation only "
            "(4 hash seeds x shuffled rglob, equivalent spellings must give identical observations)",
            "names are ASCII in every generated case"]
